@@ -23,7 +23,7 @@ VARIANTS = (("intact", 5), ("nocursor", 2), ("badcursor", 2), ("nowalk", 1))
 
 
 def budget(tier):
-    return {"quick": {"runs": 5000, "wall": 170}, "thorough": {"runs": 300000, "wall": 1500}}[tier]
+    return {"quick": {"runs": 5000, "wall": 170}, "thorough": {"runs": 60000, "wall": 900}}[tier]
 
 
 class CursorMonitor:
